@@ -76,6 +76,11 @@ type Config struct {
 	// EventFirstPermille: probability with which a due event is preferred over runnable tasks.
 	LatePermille int           // probability that a due timer is postponed once
 	LateMax      time.Duration // maximum postponement
+	// StarvePermille is the probability with which a freshly started library goroutine is held
+	// back (not scheduled) for up to StarveMax of simulated time: the "slow or stalled node"
+	// fault at the granularity of one goroutine (loaded machine, GC pause).
+	StarvePermille int
+	StarveMax      time.Duration
 }
 
 // Sim is one simulated execution.
@@ -128,6 +133,7 @@ type Stats struct {
 	SelectMulti    int // selects that found >= 2 ready cases possible (polled with several ready)
 	TimerTies      int // steps at which >= 2 events were due at the same instant
 	TimerLate      int
+	Starved        int
 	ClockJumps     int
 	TasksSpawned   int
 	LibTasks       int
@@ -448,6 +454,20 @@ func (s *Sim) spawn(name, site string, lib bool, fn func()) *Task {
 		s.Stats.LibTasks++
 	}
 	s.logLocked("spawn T%d %s lib=%v parent=%d", t.ID, site, lib, parent)
+	if lib && s.cfg.StarvePermille > 0 && s.cfg.StarveMax > 0 && s.Dec.Chance("starve", s.cfg.StarvePermille) {
+		d := time.Duration(1+s.Dec.Choose("starveamt", 16)) * s.cfg.StarveMax / 16
+		t.blocked = "starved"
+		s.Stats.Starved++
+		s.lateTotal += d
+		s.logLocked("starve T%d %v", t.ID, d)
+		s.atLocked(d, fmt.Sprintf("unstarve T%d", t.ID), false, func() {
+			s.mu.Lock()
+			if t.blocked == "starved" {
+				t.blocked = nil
+			}
+			s.mu.Unlock()
+		})
+	}
 	s.mu.Unlock()
 	go func() {
 		defer func() {
